@@ -119,7 +119,13 @@ Valid(c) == /\ c.mtOne => c.threads = 0
             /\ c.threads <= Len(Tables[c.e].mt)
 
 IsModeCfg(c) == "mode" \in DOMAIN c
+\* automatic number of threads (no -T option, or -T0: all CPU threads, amounts in KiB) with an EXPLICIT limit:
+\* the limit is a hard one (hardware_memlimit_mtenc_is_default() is false), so the final settings must fit it
+AutoConfigs == UNION {[e : {e}, threads : {Len(Tables[e].mt)}, mtOne : {FALSE}, soft : {FALSE},
+                       limit : LimitsFor(e) \ {Unlimited}, noAdjust : BOOLEAN, raw : {FALSE}, spell : {"T0", "default"}]
+                      : e \in {x \in 1..Len(Tables) : Tables[x].auto = 1}}
 GInit == \/ cfg \in {c \in Configs : Valid(c) /\ Tables[c.e].unit = 1} \cup {Soft[k] : k \in 1..Len(Soft)}
+         \/ cfg \in AutoConfigs
          \/ cfg \in ModeConfigs
 GNext == UNCHANGED cfg
 GSpec == GInit /\ [][GNext]_cfg
